@@ -238,10 +238,44 @@ func rewriteGo(f *ast.File, shim string, needShim, changed *bool) {
 		}
 		return &ast.BlockStmt{List: []ast.Stmt{&ast.AssignStmt{Lhs: names, Tok: token.DEFINE, Rhs: vals}, spawn}}
 	}
+	// mkSend turns the statement `ch <- v` into
+	//   { c, x := ch, v; if !shim.Controlled() { c <- x } else { for d := false; !d; { select { case c <- x: d = true; shim.ChanDone(); default: shim.ChanYield() } } } }
+	// a blocked send becomes a visible wait (a polling loop that yields to the scheduler) instead of an OS-level block
+	// the scheduler cannot see. Sends inside a select's case are left alone.
+	mkSend := func(snd *ast.SendStmt) ast.Stmt {
+		counter++
+		c, x, d := ast.NewIdent(fmt.Sprintf("zvch%d", counter)), ast.NewIdent(fmt.Sprintf("zvval%d", counter)), ast.NewIdent(fmt.Sprintf("zvdone%d", counter))
+		id := func(i *ast.Ident) *ast.Ident { return ast.NewIdent(i.Name) }
+		call := func(name string) *ast.CallExpr {
+			return &ast.CallExpr{Fun: &ast.SelectorExpr{X: ast.NewIdent(shim), Sel: ast.NewIdent(name)}}
+		}
+		sel := &ast.SelectStmt{Body: &ast.BlockStmt{List: []ast.Stmt{
+			&ast.CommClause{Comm: &ast.SendStmt{Chan: id(c), Value: id(x)}, Body: []ast.Stmt{&ast.AssignStmt{Lhs: []ast.Expr{id(d)}, Tok: token.ASSIGN, Rhs: []ast.Expr{ast.NewIdent("true")}}, &ast.ExprStmt{X: call("ChanDone")}}},
+			&ast.CommClause{Comm: nil, Body: []ast.Stmt{&ast.ExprStmt{X: call("ChanYield")}}},
+		}}}
+		loop := &ast.ForStmt{
+			Init: &ast.AssignStmt{Lhs: []ast.Expr{id(d)}, Tok: token.DEFINE, Rhs: []ast.Expr{ast.NewIdent("false")}},
+			Cond: &ast.UnaryExpr{Op: token.NOT, X: id(d)},
+			Body: &ast.BlockStmt{List: []ast.Stmt{sel}},
+		}
+		*needShim = true
+		*changed = true
+		return &ast.BlockStmt{List: []ast.Stmt{
+			&ast.AssignStmt{Lhs: []ast.Expr{id(c), id(x)}, Tok: token.DEFINE, Rhs: []ast.Expr{snd.Chan, snd.Value}},
+			&ast.IfStmt{
+				Cond: &ast.UnaryExpr{Op: token.NOT, X: call("Controlled")},
+				Body: &ast.BlockStmt{List: []ast.Stmt{&ast.SendStmt{Chan: id(c), Value: id(x)}}},
+				Else: &ast.BlockStmt{List: []ast.Stmt{loop}},
+			},
+		}}
+	}
 	walkBlock = func(list []ast.Stmt) []ast.Stmt {
 		for i, st := range list {
 			if g, ok := st.(*ast.GoStmt); ok {
 				list[i] = mk(g)
+			} else if snd, ok := st.(*ast.SendStmt); ok {
+				visit(snd.Value)
+				list[i] = mkSend(snd)
 			} else {
 				visit(st)
 			}
